@@ -74,6 +74,8 @@ def _wrap(x):
 def _dt(x):
     if x is None:
         return None
+    if isinstance(x, type) and x.__module__.endswith("symbuiltins"):
+        x = builtins.int if x.__name__ == "int_" else builtins.float
     try:
         return _wrap(_np.dtype(x))
     except TypeError:
